@@ -8,10 +8,10 @@ import streaminfo
 ID = "C09"
 LEVEL = "exploration"
 RULE = ("Hypothesis draws a valid stream (same two sources as C08: SVT encoder, or libaom's encoder through dlopen; biased to >= 2 tiles and >= 4 superblock rows, all post-filters) and 2-3 decoder "
-        "settings threads in 2..16 x is_16bit_pipeline x a schedule stressor (CPU affinity squeeze to 1-3 cores via taskset so that 16 decoder threads preempt each other inside their spin-wait regions; "
-        "H1 perturbation string for the mutex/semaphore wrappers the decoder does use). Half of the cases run on the ASan build (exact-size packet buffers + 32 bytes of slack = by-construction "
-        "exclusion of the known over-read, counted), LeakSanitizer at exit. Oracle: every multi-threaded run returns exactly the pictures of the 1-thread decode of the same stream (which C08 ties to "
-        "libaom/dav1d; here the libaom decode is also compared), no decoder error, no ASan/LSan report, deinit + deinit_handle return, the process exits; a run exceeding 120 s is a hang candidate and must "
+        "settings threads in 2..16 x is_16bit_pipeline x a schedule stressor (CPU affinity squeeze to 2-4 cores, at most 4 threads per core via taskset so that 16 decoder threads preempt each other inside their spin-wait regions; "
+        "H1 perturbation string for the mutex/semaphore wrappers the decoder does use). Half of the cases run on the ASan build (every packet in an exact-size heap buffer, so any over-read is visible), "
+        "LeakSanitizer at exit. Oracle: every multi-threaded run returns exactly the pictures of the 1-thread decode of the same stream (which C08 ties to "
+        "libaom/dav1d; here the libaom decode is also compared), no decoder error, no ASan/LSan report, deinit + deinit_handle return, the process exits; a run exceeding 300 s is a hang candidate and must "
         "reproduce in 2 of 3 replays. non-trivial = threads >= 2 and the stream has >= 2 tiles or >= 4 SB rows, and >= 2 multi-threaded settings completed; distinct = sha256(stream) x settings.")
 ASSUMPTIONS = ["the data-race clause is NOT decided: the decoder synchronises through volatile spin flags that ThreadSanitizer does not model (thousands of reports on the unchanged tree, no signal); "
                "what is decided: equality with the single-thread result under preemption stress, memory safety (ASan), leaks (LSan), termination and teardown",
@@ -49,7 +49,13 @@ def strategy(tier):
             src = dict(src="svt", enc=gens.case_from(c, n, tp, draw(gens.content())))
         runs = []
         for _ in range(draw(st.integers(2, 3))):
-            runs.append(dict(threads=draw(st.sampled_from([2, 3, 4, 6, 8, 12, 16])), is16=draw(st.integers(0, 1)), cpus=draw(st.sampled_from([0, 0, 1, 2, 3])),
+            th = draw(st.sampled_from([2, 3, 4, 6, 8, 12, 16]))
+            # affinity squeeze: the decoder's workers spin-wait, so N threads on far fewer cores make progress only at scheduler-quantum speed;
+            # keep threads/cores <= 4 so that a correct decoder finishes well inside the time limit (a slow run is not a hang)
+            cpus = draw(st.sampled_from([0, 0, 2, 3, 4]))
+            if cpus and th > 4 * cpus:
+                th = 4 * cpus
+            runs.append(dict(threads=th, is16=draw(st.integers(0, 1)), cpus=cpus,
                              sched=draw(st.sampled_from([None, None, "%d:300:50" % draw(st.integers(0, 9999)), "%d:30:1000" % draw(st.integers(0, 9999))]))))
         src["runs"] = runs
         src["asan"] = draw(st.booleans())
@@ -57,14 +63,14 @@ def strategy(tier):
     return s()
 
 
-def _decode(tu, wd, tag, variant, threads, is16, cpus=0, sched=None, timeout=120):
+def _decode(tu, wd, tag, variant, threads, is16, cpus=0, sched=None, timeout=300):
     env = {}
     if sched:
         env["SVT_VERIF_SCHED"] = sched
     pre = os.path.join(wd, tag)
     import subprocess, json
     b = svt.bins(variant)["svtdec"]
-    cmd = [b, tu, pre, str(threads), str(is16), "0", "0", "32" if variant == "asan" else "0", "0"]
+    cmd = [b, tu, pre, str(threads), str(is16), "0", "0", "0", "0"]
     if cpus:
         cmd = ["taskset", "-c", ",".join(str(i) for i in range(cpus))] + cmd
     e = svt.san_env(variant, env)
@@ -125,7 +131,7 @@ def run_case(case, tier):
             r = _decode(tu, wd, "mt%d" % i, variant, rn["threads"], rn["is16"], rn["cpus"], rn["sched"])
             tag = "threads=%d is16=%d cpus=%s sched=%s" % (rn["threads"], rn["is16"], rn["cpus"], rn["sched"])
             if r.exit == -999:
-                viol.append(dict(key="C09|hang", what="multi-threaded decode did not finish within 120 s (%s)" % tag))
+                viol.append(dict(key="C09|hang", what="multi-threaded decode did not finish within 300 s (%s)" % tag))
                 continue
             if r.san:
                 rep = r.san[0]
@@ -152,7 +158,7 @@ def run_case(case, tier):
         if any(r["cpus"] for r in case["runs"]):
             classes.append("cpu_squeeze")
         if variant == "asan":
-            classes.append("overread_excluded_by_slack")
+            classes.append("exact_size_buffers_asan")
         sample = dict(src=case["src"], args=case.get("aom") or case["enc"]["cfg"], runs=case["runs"], variant=variant, tiles=tiles, sb_rows=sbrows, pictures=len(a.planes))
         dkey = hashlib.sha256(b"".join(packets)).hexdigest()[:16] + "/" + svt.case_hash(case["runs"])
         return dict(violations=viol, nontrivial=nt, dkey=dkey, classes=classes, sample=sample)
